@@ -33,6 +33,7 @@ type plannedCall struct {
 	respRaw []byte
 	info    implInfo
 	yields  int
+	spec    bool // a fetch of the served spec file instead of an operation call
 }
 
 // concurrentInst is an API value whose stubs are safe for concurrent use: they look
@@ -196,13 +197,33 @@ func CheckC20(p *Pkg, e *Env, r *res.Result) {
 		// plan all calls up front (rapid is not safe for concurrent use)
 		var plans [][]*plannedCall
 		distinctOps := map[string]bool{}
+		// in a third of the rounds every handler answers with one shared, read-only response
+		// value per response type (static data: the same maps and slices go to every caller)
+		sharedResponses := rapid.IntRange(0, 2).Draw(t, "shared_responses") == 0
+		type sharedResp struct {
+			v   reflect.Value
+			raw []byte
+		}
+		shared := map[reflect.Type]sharedResp{}
+		_, hasSpecHandler := p.Funcs["SpecFileHandler"]
 		for g := 0; g < n; g++ {
 			var seq []*plannedCall
 			for k := 0; k < perG; k++ {
+				if hasSpecHandler && rapid.IntRange(0, 5).Draw(t, fmt.Sprintf("spec_%d_%d", g, k)) == 0 {
+					seq = append(seq, &plannedCall{tag: fmt.Sprintf("t%d-%d", g, k), spec: true})
+					continue
+				}
 				oi := ops[rapid.IntRange(0, len(ops)-1).Draw(t, fmt.Sprintf("op_%d_%d", g, k))]
 				params, raw, _ := GenParams(t, p, oi.op, nil)
 				info := oi.infos[rapid.IntRange(0, len(oi.infos)-1).Draw(t, fmt.Sprintf("impl_%d_%d", g, k))]
 				resp, respRaw, _ := genResponse(t, p, info, oi.docs)
+				if sharedResponses {
+					if sr, ok := shared[info.T]; ok {
+						resp, respRaw = sr.v, sr.raw
+					} else {
+						shared[info.T] = sharedResp{resp, respRaw}
+					}
+				}
 				pc := &plannedCall{tag: fmt.Sprintf("t%d-%d", g, k), op: oi.op, params: params, raw: raw, resp: resp, respRaw: respRaw, info: info,
 					yields: rapid.IntRange(0, 3).Draw(t, fmt.Sprintf("y_%d_%d", g, k))}
 				pc.wantReq = projectParams(params, raw)
@@ -263,7 +284,26 @@ func CheckC20(p *Pkg, e *Env, r *res.Result) {
 		}
 		old := runtime.GOMAXPROCS(procs)
 		defer runtime.GOMAXPROCS(old)
+		specURL := strings.TrimSuffix(base, "/") + "/" + p.Cfg.ServedSpecName()
 		callOne := func(pc *plannedCall) {
+			if pc.spec {
+				ctx := context.WithValue(context.Background(), tagKey{}, pc.tag)
+				req, err := http.NewRequestWithContext(ctx, "GET", specURL, nil)
+				if err != nil {
+					return
+				}
+				resp, err := do(req)
+				if err != nil {
+					ci.failTag(pc.tag, fmt.Sprintf("tag %s: fetching the spec file failed: %v", pc.tag, err))
+					return
+				}
+				body, rerr := io.ReadAll(resp.Body)
+				resp.Body.Close()
+				if rerr != nil || resp.StatusCode != 200 || string(body) != p.SpecFile {
+					ci.failTag(pc.tag, fmt.Sprintf("tag %s: GET %s: status %d, %d bytes (read error %v), want the %d bytes of the spec", pc.tag, specURL, resp.StatusCode, len(body), rerr, len(p.SpecFile)))
+				}
+				return
+			}
 			params := pc.params
 			if pc.raw != nil {
 				cp := reflect.New(params.Type()).Elem()
@@ -327,6 +367,9 @@ func CheckC20(p *Pkg, e *Env, r *res.Result) {
 		}
 		r.Label(fmt.Sprintf("goroutines:%d", n))
 		r.Label(fmt.Sprintf("gomaxprocs:%d", procs))
+		if sharedResponses {
+			r.Label("responses:shared-static-values")
+		}
 		if useServer {
 			r.Label("transport:loopback")
 		} else {
